@@ -290,11 +290,184 @@ def pipeline(sampler):
     return Pipeline(sampler).run()
 
 
+# ---------------------------------------------------------------------------------------------------
+# FlowModel.prep_data: the batch size handed to the validation DataLoader
+def _vb_int(e):
+    u = unparse(e)
+    if u in ("len(x_val)", "x_val.shape[0]", "x_val.size"):
+        return "n_val"
+    if u == "batch_size":
+        return "bs"
+    if isinstance(e, ast.Constant) and isinstance(e.value, int) and not isinstance(e.value, bool):
+        return f"({e.value})" if e.value < 0 else str(e.value)
+    if isinstance(e, ast.Call) and dotted(e.func) in ("min", "max", "np.minimum", "np.maximum") and len(e.args) == 2 \
+            and not e.keywords:
+        f = "Z.min" if dotted(e.func) in ("min", "np.minimum") else "Z.max"
+        return f"({f} {_vb_int(e.args[0])} {_vb_int(e.args[1])})"
+    if isinstance(e, ast.BinOp) and isinstance(e.op, (ast.Add, ast.Sub)):
+        return f"({_vb_int(e.left)} {'+' if isinstance(e.op, ast.Add) else '-'} {_vb_int(e.right)})"
+    raise Declined(f"val_batch_size: integer expression without a rule: {u}")
+
+
+def _vb_test(e):
+    u = unparse(e)
+    if u in ("len(x_val)", "x_val.shape[0]", "x_val.size", "len(x_val) > 0", "len(x_val) != 0"):
+        return "(negb (n_val =? 0))"
+    if u in ("not len(x_val)", "len(x_val) == 0"):
+        return "(n_val =? 0)"
+    if isinstance(e, ast.Compare) and len(e.ops) == 1:
+        op = {ast.Eq: "=?", ast.Lt: "<?", ast.LtE: "<=?", ast.Gt: ">?", ast.GtE: ">=?"}.get(type(e.ops[0]))
+        if op:
+            return f"({_vb_int(e.left)} {op} {_vb_int(e.comparators[0])})"
+    raise Declined(f"val_batch_size: test without a rule: {u}")
+
+
+def _vb_opt(e):
+    if isinstance(e, ast.Constant) and e.value is None:
+        return "None"
+    if isinstance(e, ast.IfExp):
+        return f"(if {_vb_test(e.test)} then {_vb_opt(e.body)} else {_vb_opt(e.orelse)})"
+    return f"(Some {_vb_int(e)})"
+
+
+def val_batch_size():
+    """the expression assigned to val_batch_size in FlowModel.prep_data -> Gallina `gen_val_batch_size n_val bs`;
+    also checks that the two DataLoader calls take batch_size / val_batch_size"""
+    mod, _ = parse("nessai/flowmodel/base.py")
+    fn = find_function(mod, "prep_data", cls="FlowModel")
+    asg = [n for n in ast.walk(fn) if isinstance(n, ast.Assign) and len(n.targets) == 1
+           and unparse(n.targets[0]) == "val_batch_size"]
+    if len(asg) != 1:
+        raise Declined(f"prep_data: {len(asg)} assignments to val_batch_size")
+    term = _vb_opt(asg[0].value)
+    loaders = [n for n in ast.walk(fn) if isinstance(n, ast.Call) and (dotted(n.func) or "").endswith("DataLoader")]
+    sizes = sorted(unparse(k.value) for n in loaders for k in n.keywords if k.arg == "batch_size")
+    if sizes != ["batch_size", "val_batch_size"]:
+        raise Declined(f"prep_data: DataLoader batch sizes are {sizes}")
+    chk = [n for n in ast.walk(fn) if isinstance(n, ast.Assign) and unparse(n.targets[0]) == "batch_size"
+           and "check_batch_size" in unparse(n.value)]
+    if len(chk) != 1 or chk[0].lineno > asg[0].lineno:
+        raise Declined("prep_data: batch_size is not passed through check_batch_size before val_batch_size")
+    return f"Definition gen_val_batch_size (n_val bs : Z) : option Z :=\n  {term}.\n", unparse(asg[0].value)
+
+
+# ---------------------------------------------------------------------------------------------------
+# FlowProposal.populate: emptiness guards of one pass of the loop
+REDUCE_ATTRS = {"max", "min", "argmax", "argmin", "ptp"}
+REDUCE_FUNCS = {"np.max", "np.min", "np.nanmax", "np.nanmin", "np.amax", "np.amin", "np.argmax", "np.argmin",
+                "np.nanargmax", "np.nanargmin", "max", "min"}
+
+
+class GuardPaths:
+    """event lists (Shrink / Guard / Reduce) of every path through one pass of `while <var> < N` in
+    FlowProposal.populate.  Batch-length names: the targets of the backward pass, of every later assignment whose
+    value mentions one of them (get_subset_arrays, compute_weights, comparisons); a reduction counts when its
+    operand mentions a batch-length name that is not an accumulated array."""
+
+    def __init__(self, fn):
+        loops = [n for n in ast.walk(fn) if isinstance(n, ast.While)]
+        loops = [w for w in loops if any(isinstance(c, ast.Compare) and isinstance(c.ops[0], ast.Lt)
+                                         and isinstance(c.comparators[0], ast.Name) and c.comparators[0].id == "N"
+                                         for c in ast.walk(w.test))]
+        if len(loops) != 1:
+            raise Declined(f"populate: {len(loops)} loops `while <var> < N`")
+        self.loop = loops[0]
+        self.batch = set()
+        self.paths = []
+
+    def names(self, e):
+        return {n.id for n in ast.walk(e) if isinstance(n, ast.Name)}
+
+    def expr_events(self, e, batch):
+        ev = []
+        for n in ast.walk(e):
+            if isinstance(n, ast.Call):
+                d = dotted(n.func) or ""
+                if isinstance(n.func, ast.Attribute) and n.func.attr in REDUCE_ATTRS and not n.args \
+                        and self.names(n.func.value) & batch:
+                    ev.append("R")
+                elif d in REDUCE_FUNCS and len(n.args) == 1 and self.names(n.args[0]) & batch:
+                    ev.append("R")
+        return ev
+
+    def is_guard(self, s, batch):
+        if not (isinstance(s, ast.If) and not s.orelse and len(s.body) == 1 and isinstance(s.body[0], ast.Continue)):
+            return False
+        t = s.test
+        u = unparse(t)
+        for b in batch:
+            if u in (f"not len({b})", f"len({b}) == 0", f"not {b}.size", f"{b}.size == 0", f"not {b}.shape[0]"):
+                return True
+        return False
+
+    def walk(self, stmts, events, batch):
+        if len(self.paths) > 200:
+            raise Declined("populate: too many paths")
+        if not stmts:
+            self.paths.append(events)
+            return
+        s, rest = stmts[0], list(stmts[1:])
+        if is_logging(s):
+            return self.walk(rest, events, batch)
+        if isinstance(s, (ast.Continue, ast.Break)):
+            self.paths.append(events)
+            return
+        if self.is_guard(s, batch):
+            return self.walk(rest, events + ["G"], batch)
+        if isinstance(s, ast.If):
+            ev = events + self.expr_events(s.test, batch)
+            self.walk(list(s.body) + rest, ev, set(batch))
+            self.walk(list(s.orelse) + rest, ev, set(batch))
+            return
+        if isinstance(s, (ast.For, ast.While, ast.With, ast.Try)):
+            raise Declined(f"populate: compound statement without a rule inside the loop: {unparse(s)[:60]}")
+        ev = events + self.expr_events(s, batch)
+        batch = set(batch)
+        if isinstance(s, (ast.Assign, ast.AugAssign, ast.AnnAssign)):
+            tg = s.targets if isinstance(s, ast.Assign) else [s.target]
+            tnames = {n.id for t in tg for n in ast.walk(t) if isinstance(n, ast.Name) and not
+                      isinstance(getattr(n, "ctx", None), ast.Load)}
+            val = s.value
+            if val is not None:
+                u = unparse(val)
+                if "backward_pass" in u:
+                    batch |= tnames
+                    ev = ev + ["S"]
+                elif isinstance(val, ast.Call) and (dotted(val.func) or "").endswith("get_subset_arrays"):
+                    batch |= tnames
+                    ev = ev + ["S"]
+                elif self.names(val) & batch and not ("concatenate" in u):
+                    # same length as the batch (weights, masks); a mask-indexed copy shrinks
+                    batch |= {t for t in tnames if t not in ("samples",)}
+                    if isinstance(val, ast.Subscript) and tnames & batch:
+                        ev = ev + ["S"]
+        self.walk(rest, ev, batch)
+
+    def run(self):
+        self.walk(list(self.loop.body), [], set())
+        if not any("S" in p for p in self.paths):
+            raise Declined("populate: no backward pass found in the loop")
+        uniq = []
+        for p in self.paths:
+            if p not in uniq:
+                uniq.append(p)
+        return uniq
+
+
+def populate_guard_paths():
+    mod, _ = parse("nessai/proposal/flowproposal.py")
+    fn = find_function(mod, "populate", cls="FlowProposal")
+    return GuardPaths(fn).run()
+
+
 if __name__ == "__main__":
     print(check_configuration()[0])
     print(aliases())
     print(base_proposals())
     print(shapes())
+    print(val_batch_size())
+    for p_ in populate_guard_paths():
+        print("path", "".join(p_))
     for s in ("std", "ins"):
         ev = pipeline(s)
         print(s, len(ev), ev[:40])
